@@ -16,6 +16,8 @@ side is a small integer held in float32 (exact).
   sow c n e              `self.sow(c, n, e)` (default tuple reduce)
   perturb c n e          `self.perturb(n, e, collection=c)`;                pushes Σ result
   child cls name? body   construct a submodule (explicit or automatic name); it becomes child slot #k
+  nested body m V e      `y, st = Sub().apply(V, e, mutable=m, capture_intermediates=False)` inside the body: a
+                         complete nested apply of another module on its own variables; pushes y, then a digest of st
   call k e w?            call child #k (again) with argument e — a scalar, or `full((w,), e)` when a width is
                          given; parameter shapes of the child may contain `x.shape[-1:]`;  pushes its return value
   bind e                 `tmp = e`;                                         pushes e
@@ -76,6 +78,7 @@ inductive SProg where
   | perturb (col n : String) (e : Expr)
   | child (cls : String) (name : Option String) (body : SProg)
   | call (slot : Nat) (a : Expr) (w : Option Nat)
+  | nested (body : SProg) (m : LFilter) (V : Vars) (a : Expr)
   deriving DecidableEq, Repr, Inhabited
 
 /-- the shape tuple a parameter declaration denotes; an `argLast` that no call bound to a width is
@@ -228,6 +231,19 @@ def finishCall (cfg : Cfg) (π : Path) (l : Local) : Op Local := fun s =>
 
 def push (l : Local) (v : Int) : Local := { l with env := l.env ++ [v] }
 
+/-- the configuration a *nested* `Module.apply(..., capture_intermediates=False)` runs under.
+`capture_intermediates` is dynamically scoped: module-level `apply` pushes its own setting — also `False` —
+on the thread-local `_context.capture_stack` for the duration of the call and pops it afterwards, and a
+wrapped `__call__` consults the top of the stack.  In this functional evaluator the top of the stack is the
+`capture` field of the `Cfg` in effect: a nested apply evaluates its body under `nestedCfg cfg` (push), and
+the caller goes on under its own `cfg` when it returns (pop). -/
+def nestedCfg (cfg : Cfg) : Cfg := { cfg with capture := false }
+
+/-- what the enclosing body keeps of the state a nested apply returned: how many collections came back, and
+the sum of all their entries (so that an unrequested extra collection is visible in the output) -/
+def digest (R : Vars) : Int :=
+  (R.cols.length : Int) * 1000 + sumInt (R.vars.map (fun kv => kv.2.total))
+
 /-- one execution of a module body at scope path `π` with argument `x` -/
 def eval (cfg : Cfg) : Nat → SProg → Path → Int → Local → Op Local
   | 0, _, _, _, _ => fun s => (.error .fuel, s)
@@ -309,6 +325,18 @@ def eval (cfg : Cfg) : Nat → SProg → Path → Int → Local → Op Local
              match finishCall cfg (π ++ [k.name]) lk s1 with
              | (.error err, s2) => (.error err, s2)
              | (.ok lk', s2) => (.ok (push l lk'.out), s2))
+    | .nested body m V a =>
+      -- `y, state = Sub().apply(V, a, rngs={'params': key}, mutable=m, capture_intermediates=False)`:
+      -- a complete, separate apply (own root scope over `V`); the enclosing scope's store is not involved.
+      -- Pushes `y`, then `digest state`.
+      (match evalE x l.env a with
+       | .error err => (.error err, s)
+       | .ok av =>
+         if badStructure V then (.error .invalidStructure, s)
+         else
+           match eval (nestedCfg cfg) fuel body [] av {} (Scope.bind m V ["params"]) with
+           | (.error err, _) => (.error err, s)
+           | (.ok li, si) => (.ok (push (push l li.out) (digest (mutableVariables si))), s))
 
 /-- the scope function `fn(scope, x)` of a top-level module / core function -/
 def runTop (cfg : Cfg) (fuel : Nat) (p : SProg) (x : Int) : Op Int := fun s =>
@@ -398,6 +426,7 @@ def Mod.unbind (m : Mod) : Option (Mod × Vars) :=
 def size : SProg → Nat
   | .seq a b => size a + size b + 1
   | .child _ _ b => size b + 1
+  | .nested b _ _ _ => size b + 1
   | _ => 1
 
 /-- no statement writes after initialisation: only `param`, `variable`, `get`, `bind`, `ret`, children -/
@@ -418,6 +447,7 @@ def declOnly : SProg → Bool
   | .sow _ _ _ => false
   | .perturb _ _ _ => false
   | .get _ _ => false
+  | .nested _ _ _ _ => false
   | _ => true
 
 /-- the expression mentions neither the argument nor a local -/
@@ -438,6 +468,7 @@ def argFree : SProg → Bool
   | .put _ _ _ e => e.isConst
   | .sow _ _ e => e.isConst
   | .perturb _ _ e => e.isConst
+  | .nested _ _ _ _ => false
   | _ => true
 
 /-- collections a program sows into -/
